@@ -33,7 +33,11 @@ class XmlEventHandler(XmlHandler):
         if isinstance(source, etree.Element):
             ctx = iterwalk(source, {})
         elif self.parser.config.process_xinclude:
-            root = etree.parse(source).getroot()  # nosec
+            try:
+                root = etree.parse(source).getroot()  # nosec
+            except (LookupError, ValueError) as e:
+                raise ParserError(e)
+
             base_url = get_base_url(self.parser.config.base_url, source)
             loader = functools.partial(xinclude_loader, base_url=base_url)
 
